@@ -41,13 +41,17 @@ Definition conflict (r : repo) (a b : N) : bool := negb (has_block r a b) && neg
 Definition is_leaf (r : repo) (b : blk) : bool := negb (existsb (fun c => b_parent c =? b_id b) r).
 Definition heads_from (r : repo) (from : N) : list blk := filter (fun b => is_leaf r b && (from <=? b_num b)) r.
 
-(* well-formed repository: ids unique, every non-root block's parent is stored *below* it with number one less *)
+(* well-formed repository: ids unique, the first stored block (genesis) has number 0, every other block's parent is
+   stored *below* it with number one less *)
 Fixpoint wf_repo (r : repo) : Prop :=
   match r with
   | [] => True
   | b :: rest =>
       wf_repo rest /\ known rest (b_id b) = false /\
-      (rest = [] \/ exists p, find_blk rest (b_parent b) = Some p /\ b_num b = b_num p + 1)
+      match rest with
+      | [] => b_num b = 0
+      | _ => exists p, find_blk rest (b_parent b) = Some p /\ b_num b = b_num p + 1
+      end
   end.
 
 (* a chain list is contiguous: numbers decrease by one, each element's parent is the next one *)
